@@ -18,9 +18,12 @@ import (
 // that the plugin keeps per response (buffers, flags) must not leak from a hijacked exchange into
 // the next response, whatever is recycled internally.
 func TestC15AfterHijackedExchange(t *testing.T) {
-	sub := lab.Sub("round-trip-after-hijacked-exchange", "rapid: gzip alone or wrapped by logging/size_limit, level/min_size drawn; 5-40 exchanges alternating Upgrade requests (the terminal handler hijacks, answers 101 and closes; client sent Accept-Encoding: gzip) "+
-		"with ordinary responses (status 200/404/500, text/plain, 0-5000 bytes, 1-3 writes, explicit or implicit WriteHeader); oracle: every ordinary response decodes (per received Content-Encoding/framing) to exactly the handler's body with its status; "+
-		"non-trivial = an ordinary compressible response directly after a hijacked exchange")
+	sub := lab.Sub("round-trip-after-hijacked-exchange", "rapid: gzip alone or wrapped by logging/size_limit, level/min_size drawn; 5-40 exchanges mixing Upgrade requests (the terminal handler hijacks, answers 101 and closes; client sent Accept-Encoding: gzip), "+
+		"ABORTED exchanges (the handler writes the head and 1..3 parts of its body, with or without a declared Content-Length, then panics with http.ErrAbortHandler as the reverse proxy does when a backend dies mid-body) "+
+		"and ordinary responses (status 200/404/500, text/plain, 0-5000 bytes, 1-3 writes, explicit or implicit WriteHeader; every exchange has its own body text); oracle: every ordinary response decodes (per received Content-Encoding/framing) to exactly the handler's body with its status; "+
+		"non-trivial = an ordinary compressible response directly after a hijacked or aborted exchange")
+	sub.Floor("after-aborted-exchange", 0.5)
+	sub.Floor("after-hijacked-exchange", 0.5)
 	lab.Check(t, sub, 150, 4000, func(rt *rapid.T) {
 		chain := rapid.SampledFrom([][]string{{"gzip"}, {"logging", "gzip"}, {"gzip", "logging"}, {"size_limit", "gzip"}}).Draw(rt, "chain")
 		level := rapid.IntRange(-1, 9).Draw(rt, "level")
@@ -28,6 +31,8 @@ func TestC15AfterHijackedExchange(t *testing.T) {
 		n := rapid.IntRange(5, 40).Draw(rt, "n")
 		type plan struct {
 			hijack   bool
+			abort    bool
+			declare  bool
 			status   int
 			size     int
 			writes   int
@@ -35,10 +40,15 @@ func TestC15AfterHijackedExchange(t *testing.T) {
 		}
 		plans := make([]plan, n)
 		for i := range plans {
-			plans[i] = plan{hijack: rapid.IntRange(0, 2).Draw(rt, "hijack") == 0, status: rapid.SampledFrom([]int{200, 200, 404, 500}).Draw(rt, "status"),
+			kind := rapid.IntRange(0, 5).Draw(rt, "kind")
+			plans[i] = plan{hijack: kind == 0, abort: kind == 1, declare: rapid.Bool().Draw(rt, "declare"), status: rapid.SampledFrom([]int{200, 200, 404, 500}).Draw(rt, "status"),
 				size: rapid.SampledFrom([]int{0, 1, 63, 64, 700, 5000}).Draw(rt, "size"), writes: rapid.IntRange(1, 3).Draw(rt, "writes"), explicit: rapid.Bool().Draw(rt, "explicit")}
 		}
-		cur := make(chan plan, 1)
+		type job struct {
+			plan
+			idx int
+		}
+		cur := make(chan job, 1)
 		terminal := http.HandlerFunc(func(w http.ResponseWriter, r *http.Request) {
 			p := <-cur
 			if p.hijack {
@@ -57,10 +67,21 @@ func TestC15AfterHijackedExchange(t *testing.T) {
 				return
 			}
 			w.Header().Set("Content-Type", "text/plain")
+			body := bodyOfExchange(p.size, p.idx)
+			if p.abort {
+				// head + a few parts of a body that is announced (or meant) to be longer, then the abort
+				if p.declare {
+					w.Header().Set("Content-Length", fmt.Sprint(len(body)+4096))
+				}
+				w.WriteHeader(p.status)
+				for k := 0; k < p.writes; k++ {
+					_, _ = w.Write(body)
+				}
+				panic(http.ErrAbortHandler)
+			}
 			if p.explicit {
 				w.WriteHeader(p.status)
 			}
-			body := bodyOf(p.size)
 			per := (len(body) + p.writes - 1) / p.writes
 			for off := 0; off < len(body); off += per {
 				end := off + per
@@ -84,10 +105,11 @@ func TestC15AfterHijackedExchange(t *testing.T) {
 			rt.Fatalf("harness: %v", err)
 		}
 		defer l.Close()
-		afterHijack, nt := false, false
+		afterHijack, afterAbort, nt := false, false, false
+		sawHijack, sawAbort := false, false
 		var viol string
 		for i, p := range plans {
-			cur <- p
+			cur <- job{p, i}
 			hdr := []lab.KV{{K: "Host", V: "h"}, {K: "Accept-Encoding", V: "gzip"}}
 			if p.hijack {
 				hdr = append(hdr, lab.KV{K: "Connection", V: "Upgrade"}, lab.KV{K: "Upgrade", V: "verif"})
@@ -102,16 +124,23 @@ func TestC15AfterHijackedExchange(t *testing.T) {
 				afterHijack = true
 				continue
 			}
+			if p.abort {
+				// whatever reaches the client of an aborted exchange is outside the statement
+				_, _ = lab.Do(l.Addr, &lab.RawRequest{Method: "GET", Target: "/a", Framing: "none", Header: hdr}, 10*time.Second)
+				afterAbort = true
+				continue
+			}
 			out, err := lab.Do(l.Addr, &lab.RawRequest{Method: "GET", Target: "/n", Framing: "none", Header: hdr}, 10*time.Second)
-			want := bodyOf(p.size)
+			want := bodyOfExchange(p.size, i)
 			wantStatus := p.status
 			if !p.explicit {
 				wantStatus = 200
 			}
-			if afterHijack && p.size >= minSize && p.size > 0 {
+			if (afterHijack || afterAbort) && p.size >= minSize && p.size > 0 {
 				nt = true
+				sawHijack, sawAbort = sawHijack || afterHijack, sawAbort || afterAbort
 			}
-			afterHijack = false
+			afterHijack, afterAbort = false, false
 			if err != nil || out.BodyErr != "" {
 				viol = fmt.Sprintf("exchange #%d: response could not be read: %v %s", i, err, out.BodyErr)
 				break
@@ -133,11 +162,29 @@ func TestC15AfterHijackedExchange(t *testing.T) {
 				break
 			}
 		}
-		sub.Case(map[string]any{"chain": chain, "level": level, "min_size": minSize, "exchanges": n}, nt)
+		var labels []string
+		if sawHijack {
+			labels = append(labels, "after-hijacked-exchange")
+		}
+		if sawAbort {
+			labels = append(labels, "after-aborted-exchange")
+		}
+		sub.Case(map[string]any{"chain": chain, "level": level, "min_size": minSize, "exchanges": n}, nt, labels...)
 		if viol != "" {
 			rt.Fatalf("%s", viol)
 		}
 	})
+}
+
+// bodyOfExchange is a body of n bytes whose text names the exchange it belongs to, so that bytes of
+// one response showing up in another are recognised whatever their length.
+func bodyOfExchange(n, idx int) []byte {
+	unit := fmt.Sprintf("exchange %d says: the quick brown fox jumps over the lazy dog\n", idx)
+	b := make([]byte, n)
+	for i := range b {
+		b[i] = unit[i%len(unit)]
+	}
+	return b
 }
 
 func bodyOf(n int) []byte {
